@@ -182,7 +182,7 @@ TrTunnelEnd == /\ Is("TunnelEnd") /\ Step /\ ud' = [ud EXCEPT !.ended = TRUE]
 
 TrReturnedU ==
   /\ Is("Returned") /\ mode = "udp" /\ Step
-  /\ viol' = viol \cup (IF ud.how = "eof" /\ ud.ugot < Whole(ud.t, ud.cut) THEN {V("Complete", "t2u:" \o UKey \o (IF ud.sock = "vconn" THEN ":virtualConn" ELSE ""))} ELSE {})
+  /\ viol' = viol \cup (IF ud.how = "eof" /\ ud.ugot < Whole(ud.t, ud.cut) THEN {V("Complete", "t2u:" \o UKey \o (IF ud.sock = "vconn" THEN ":virtualConn" ELSE IF ud.sock = "real" THEN ":realSocket" ELSE ""))} ELSE {})
                   \cup (IF ~ud.ended THEN {V("EarlyReturn", UKey)} ELSE {})
   /\ Keep(ud) /\ Keep(mode) /\ Keep(b)
 TrHungU ==
